@@ -77,3 +77,15 @@ Theorem C07_single_exclusion_mpls : forall A S (ZL : zlike A S) cfg, exact A = f
   crashed (mpls_defeat_low A cfg s) = false -> excludes_a_lowest A S ZL s (mpls_defeat_low A cfg s).
 Proof. exact mpls_defeat_low_excludes_a_lowest. Qed.
 Print Assumptions C07_single_exclusion_mpls.
+
+(* ---- "where a rule transfers one surplus at a time, the one transferred first is the largest" (wigm, wigm-prf, scotland):
+   in every state with distinct candidate ids the surplus-transfer step, when it does not crash, transfers the surplus of a
+   transfer-pending winner whose tally is >= every pending winner's tally, and changes nothing else about anybody's status
+   ([transfers_a_largest]); the second case -- the tie-break names nobody -- is a crash for the tie-break by lot. *)
+Theorem C07_largest_surplus_is_transferred_first : forall A S (ZL : zlike A S) cfg, exact A = false ->
+  forall bt rew (s : est A), bt_ok A bt -> NoDup (map (@cid A) (cands s)) -> crashed s = false ->
+  crashed (transfer_high_surplus A cfg bt rew s) = false ->
+  transfers_a_largest A S ZL s (transfer_high_surplus A cfg bt rew s) \/
+  (exists hv, max_vote A (pendings A s) = Some hv /\ snd (bt (filter (fun c => eqv A (cvote c) hv) (pendings A s)) s) = None).
+Proof. exact transfer_high_transfers_a_largest. Qed.
+Print Assumptions C07_largest_surplus_is_transferred_first.
